@@ -8,7 +8,8 @@
       the script).  A word that consists of complete pieces along a path of an expected
       within-word expression but stops before the expression is complete ([--k=] for
       [--k=(x|y)]) is therefore read as that expression.
-    - [last_word_escape]: when the last complete word is accepted by no expected literal and no
+    - [last_word_escape] (repaired in /repo by commit 1567cbe; the predicate stays as the
+      classifier that recognises the mechanism should it come back): when the last complete word is accepted by no expected literal and no
       expected within-word expression and the first command tried at that point does not list
       it, the script leaves its matching loop ([break 3] under [word_index + 1 == cword]) and
       completes from the state *before* that word: further commands and the catch-all are not
